@@ -4,6 +4,7 @@ CONSTANTS
     MAXV = 2
     MAXF = 1
     HLEN = 0
+    FOCUS = "any"
     PALETTE = "small"
 SPECIFICATION Spec
 INVARIANTS TypeOK ItemOK Laws CoherentNow
